@@ -6,7 +6,9 @@ for p in sorted(glob.glob('/verif/seeded/*/meta.json')):
     sid = os.path.basename(os.path.dirname(p))
     r = json.load(open(p)).get('check_result', '')
     low = r.lower()
-    if low.startswith('reclassified'):
+    if low.startswith('caught by c33 only'):
+        v = 'missed by C29, caught by C33'
+    elif low.startswith('reclassified'):
         v = 'reclassified (harmless on the fixed tree)'
     elif low.startswith('missed:') or low.startswith('missed (') or low.startswith('missed -'):
         v = '**missed**'
